@@ -168,6 +168,42 @@ def axis_angle_of(Rrel):
     return math.atan2(s, (float(np.trace(Rrel)) - 1) / 2), w
 
 
+def integer_ends(j):
+    """end poses stored with an INTEGER dtype (quarter / half turns with whole-number translations): every interpolator
+    must return what it returns for the same poses in floating point (the curve itself is judged on the float form)"""
+    Rs = [np.eye(3), gamma.rotz(math.pi / 2), gamma.rotx(math.pi / 2), gamma.roty(-math.pi / 2), gamma.rotz(math.pi),
+          gamma.rotz(math.pi / 2) @ gamma.rotx(math.pi / 2)]
+    ts = [np.array([0.0, 0.0, 0.0]), np.array([1.0, 2.0, 0.0]), np.array([-3.0, 1.0, 2.0])]
+    for a, R0 in enumerate(Rs):
+        for b_, R1 in enumerate(Rs):
+            if a == b_:
+                continue
+            T0 = np.eye(4)
+            T0[:3, :3], T0[:3, 3] = np.round(R0), ts[a % 3]
+            T1 = np.eye(4)
+            T1[:3, :3], T1[:3, 3] = np.round(R1), ts[(b_ + 1) % 3]
+            planar = abs(T0[2, 2] - 1) < 1e-12 and abs(T1[2, 2] - 1) < 1e-12 and T0[2, 3] == 0 and T1[2, 3] == 0
+            for with_start in (True, False):
+                fams = [(routes3(T0, T1, with_start), routes3(T0.astype(int), T1.astype(int), with_start))]
+                if planar:
+                    H0, H1 = T0[[0, 1, 3]][:, [0, 1, 3]], T1[[0, 1, 3]][:, [0, 1, 3]]
+                    fams.append((routes2(H0, H1, with_start), routes2(H0.astype(int), H1.astype(int), with_start)))
+                for rf, ri in fams:
+                    for site in rf:
+                        for s in (0.0, 0.25, 0.5, 1.0):
+                            cid = (site, "int-ends", with_start)
+                            feat = "integer-dtype-ends;start=%s;s=%g" % (with_start, s)
+                            detail = {"kind": "int-ends", "T0": T0.tolist(), "T1": T1.tolist(), "s": s}
+                            try:
+                                want = np.asarray(rf[site][0](s), dtype=float)
+                            except Exception:  # noqa: BLE001  (e.g. antipodal pair: the float form is judged elsewhere)
+                                continue
+                            got = guard(j, site + "[int]", feat, detail, cid, lambda: np.asarray(ri[site][0](s), dtype=float))
+                            if got is not None:
+                                ok = got.shape == want.shape and float(np.max(np.abs(got - want))) <= 1e-9
+                                check(j, ok, site + "[int]", feat, "differs-from-floating-point-form", dict(detail, got=got.tolist()), cid)
+
+
 def valuations(j, rng, n):
     import spatialmath.base as b
     from spatialmath import SO3, SE3, UnitQuaternion, SO2, SE2
@@ -267,6 +303,7 @@ def run(tier):
     j.sample({"case": {"p": r.json[9]["c"]["p"], "n": r.json[9]["c"]["n"], "m0.q": r.json[9]["c"]["m0"]["q"]}})
     lat = j.evaluations
     valuations(j, rng, 300 if thorough else 60)
+    integer_ends(j)
     cov = {"states": r.distinct, "transitions": r.generated, "traces_validated_against_impl": n, "checker_cmd": r.cmd,
            "lattice_exact": lat, "valuation": j.evaluations - lat,
            "rule": "lattice case = (route, with/without start, endpoint or interior grid value); valuation case = "
